@@ -4,6 +4,7 @@ go 1.25
 
 require (
 	github.com/anishathalye/porcupine v1.3.0
+	github.com/samber/lo v1.52.0
 	github.com/samber/ro v0.2.0
 	github.com/samber/ro/ee v0.0.0
 	github.com/samber/ro/ee/plugins/prometheus v0.0.0
@@ -36,7 +37,6 @@ require (
 	github.com/prometheus/client_model v0.6.1 // indirect
 	github.com/prometheus/common v0.44.0 // indirect
 	github.com/prometheus/procfs v0.15.1 // indirect
-	github.com/samber/lo v1.52.0 // indirect
 	github.com/ulule/limiter/v3 v3.11.2 // indirect
 	golang.org/x/text v0.22.0 // indirect
 	google.golang.org/protobuf v1.34.2 // indirect
